@@ -24,6 +24,16 @@ CLAIMS["C04"] = ("proof",
    "DESIGN.md §7 C04",
    "The history quantifier is covered by the frozen constants (proof) and the golden corpus (finite sample written by the real reference build); an algorithmic change that leaves all constants and all corpus items unchanged is not seen.",
    "Lean 4 proof over translator-regenerated vs frozen format constants + golden corpus cross-decoding")
+CLAIMS["C02"] = ("proof",
+   "Lean 4 theorems over a model of predict_blocks/recreate_blocks, predict_block/recreate_block and predict_tree/recreate_tree written once, generically over a predictor interface: `decStream_encStream` — for ANY predictor (any hash, chain walk, lazy rule, nice length, window, block size, Huffman length calculator) and every valid block list, if analysis produces corrections then reconstruction from them returns exactly the blocks and final padding and consumes exactly those corrections (token-count and EOF/BFINAL signalling, stored blocks, irregular 258, dynamic-header mirror included); `hops_inv` — calculate_hops is inverted by hop_match on the same candidate list; `decTree_encTree`; `context_numbers_match_source` re-checked against the regenerated enum orders. Together with C07 (`write_parse`: blocks -> bits is exact) and C10 (operations -> decisions is lossless) this is the exactness chain. On the implementation the check runs the property's own oracle on every run: recompress(decompress D) = D[..n] for both verify values, equal results, independence from bytes after compressed_size, on streams of 4 real compressors, an independent generator using all format freedoms, and mutations.",
+   "DESIGN.md §7 C02/C08",
+   "Kernel-checked over the generic mirror model; heuristics enter only as arbitrary functions. Assumed: the bool coder (crate cabac) is lossless; `StreamValid` of parsed blocks (a token list that genuinely expands to the plaintext) is what the parser guarantees — tied to the code by the C03/C07 correspondence, not yet a Lean theorem. The mirror model itself is tied to token_predictor.rs / process.rs / tree_predictor.rs by the implementation oracle runs (a trace-driven correspondence of the protocol layer is the next growth step).",
+   "Lean 4 proof (refinement between analysis and reconstruction, parametric in the predictor) + implementation oracle runs")
+CLAIMS["C08"] = ("proof",
+   "Same mirror theorem as C02 read with the predictor universally quantified (`any_parameters_exact`): whatever parameter vector selects the predictor, analysis either fails or yields corrections from which exactly the original blocks are reconstructed. Added here: `readParams_writeParams` — for every parameter vector whose fields fit their serialised widths, what `write` emits `read` returns unchanged, without hitting a `try_from().unwrap()`, and every emitted operation is a well-formed fixed-width value (so C10 applies); `estimatorRange_wf` — every vector in the estimator's range fits; `param_layout_matches_source` — field order, widths, hash-algorithm ids and add-policy selectors of BOTH `write` and `read` as regenerated from the source equal the model's and each other. Implementation side, every run: hook roundtrip_with_params on valid streams x (estimator vector + random in-range perturbations over 7 hashes x 5 add policies x greedy/lazy x nice/chain/window/block size/flags): Err or exact, and re-read vector equal.",
+   "DESIGN.md §7 C02/C08",
+   "As C02. The estimator's range is a product of field ranges read off the estimator code (DESIGN.md); lazy matching with zlib-compatible depth quartering below 4 is outside it.",
+   "Lean 4 proof (predictor-parametric refinement + header round trip) + translator-regenerated layouts + perturbed-parameter runs on the implementation")
 NA = {
  "C09": "statistical aggregate (acceptance within 1%, correction size within 3%) over four external compressors relative to a frozen binary: no for-all statement whose Lean proof would decide it; a sampled comparison is not this technique (DESIGN.md §7 C09)",
 }
